@@ -4,6 +4,7 @@ package main
 // atomics, and environment stubs.
 
 import (
+	"os"
 	"crypto/hmac"
 	"crypto/sha1"
 	"crypto/sha256"
@@ -277,6 +278,18 @@ func init() {
 			iv := a[0].(*IfaceV)
 			p := iv.val.(*PtrV)
 			return r.ts.Bool(r.mutex[mutexKey(p)] != 0)
+		},
+		zz + "MutexesHeld": func(r *Run, fn *ssa.Function, a []Value) Value {
+			n := 0
+			for k, v := range r.mutex {
+				if v != 0 && !strings.HasPrefix(k, "once-") {
+					n++
+					if os.Getenv("GOSYM_VERBOSE") != "" {
+						fmt.Fprintf(os.Stderr, "[mutex held] %s = %d\n", k, v)
+					}
+				}
+			}
+			return r.ts.Const(64, uint64(n))
 		},
 		zz + "Event": func(r *Run, fn *ssa.Function, a []Value) Value {
 			r.events = append(r.events, strArg(a[0]))
